@@ -274,6 +274,7 @@ class MultiTanProcessor(object):
 
     def _tile_parallel(self, pio, cli_progress, parallel, **kwargs):
         import multiprocessing as mp
+        from .par_util import finish_workers, put_to_workers
 
         # Start up the workers
 
@@ -293,17 +294,12 @@ class MultiTanProcessor(object):
 
         with progress_bar(total=len(self._descs), show=cli_progress) as progress:
             for image, desc in zip(self._collection.images(), self._descs):
-                queue.put((image, desc))
+                put_to_workers(queue, (image, desc), workers)
                 progress.update(1)
 
         # Finish up
 
-        queue.close()
-        queue.join_thread()
-        done_event.set()
-
-        for w in workers:
-            w.join()
+        finish_workers(queue, done_event, workers)
 
 
 def _mp_tile_worker(queue, done_event, pio, _kwargs):
